@@ -182,7 +182,9 @@ def run_property(prop, argv):
                            'detail': ''.join(traceback.format_exception_only(type(exc), exc)).strip()})
         # 2. build: models first (so the correspondence can run even if a proof breaks), then proofs/props
         model_ok = False
-        thms = common.theorems_of(os.path.join(common.COQ, prop.PROPS_FILE))
+        props_files = list(getattr(prop, 'PROPS_FILES', [prop.PROPS_FILE]))
+        thms_by_file = {pf: common.theorems_of(os.path.join(common.COQ, pf)) for pf in props_files}
+        thms = [t for pf in props_files for t in thms_by_file[pf]]
         obligations += [f'theorem {t}' for t in thms]
         if gen_ok:
             try:
@@ -196,8 +198,9 @@ def run_property(prop, argv):
                     out = common.make(prop.TARGETS)
                     # re-print assumptions even when make had nothing to do
                     vo = os.path.join(common.COQ, prop.PROPS_FILE + 'o')
-                    out2 = common.coqc_print_assumptions(prop.PROPS_FILE, thms)
-                    assumptions_printed = out2
+                    assumptions_printed = []
+                    for pf in props_files:
+                        assumptions_printed += common.coqc_print_assumptions(pf, thms_by_file[pf])
                     discharged += len(thms)
                 except BuildError as e:
                     info = parse_make_failure(e.output)
@@ -209,9 +212,9 @@ def run_property(prop, argv):
         # 2b. thorough: independent re-check of the compiled property file and everything it depends on
         coqchk_axioms = None
         if tier == 'thorough' and model_ok and not broken:
-            obligations.append('coqchk -o: independent re-check of ' + prop.PROPS_FILE + 'o and its dependencies')
+            obligations.append('coqchk -o: independent re-check of ' + ', '.join(props_files) + ' (.vo) and their dependencies')
             try:
-                coqchk_axioms = common.coqchk(prop.PROPS_FILE)
+                coqchk_axioms = '; '.join(common.coqchk(pf) for pf in props_files)
                 discharged += 1
             except BuildError as e:
                 broken.append({'kind': 'coqchk', 'name': prop.PROPS_FILE, 'detail': e.output[-800:]})
